@@ -102,6 +102,12 @@ impl Searcher {
             }
         }
 
+        // The budget can run out before even the first iteration completes
+        // (e.g. movetime 0). Still answer with a legal move if there is one.
+        if best_move.is_none() {
+            best_move = self.move_generator.generate_moves(board).first().copied();
+        }
+
         (best_score, best_move)
     }
 
